@@ -893,7 +893,9 @@ NewCtx(e) ==
                 !.fresh = CacheFresh(e),
                 !.atFix = IF HasExpect("fix") THEN AtFix(store) ELSE FALSE,
                 !.okEtags = IF e.a \in DOMAIN ctx THEN ctx[e.a].okEtags ELSE {},
-                !.prevQuiet = IF e.a \in DOMAIN ctx THEN (ctx[e.a].result = "ok" /\ ~ctx[e.a].wrote /\ ctx[e.a].childReqs = 0) ELSE FALSE]
+                \* (a sync whose hook call failed or asked to come back later -- 429 -- has decided nothing)
+                !.prevQuiet = IF e.a \in DOMAIN ctx THEN (ctx[e.a].result = "ok" /\ ~ctx[e.a].wrote /\ ctx[e.a].childReqs = 0
+                                                          /\ ctx[e.a].nHooks > 0 /\ ~ctx[e.a].hookFail) ELSE FALSE]
 
 Init == l = 1 /\ store = <<>> /\ cfg = [children |-> <<>>] /\ expect = <<>> /\ ctx = <<>> /\ VacInit
 
